@@ -171,8 +171,19 @@ def cerr(name):
     return ERR.get(name, "EOther")
 
 
+INTERN: dict | None = None      # string -> symbol of the shared prelude (keeps the generated files small)
+
+
 def cs(s: str) -> str:
-    return cbytes(s.encode("utf-8"))
+    if INTERN is None:
+        return cbytes(s.encode("utf-8"))
+    if s not in INTERN:
+        INTERN[s] = f"S{len(INTERN)}_"
+    return INTERN[s]
+
+
+def intern_prelude() -> str:
+    return "\n".join(f"Definition {n} : str := {cbytes(s.encode('utf-8'))}." for s, n in (INTERN or {}).items())
 
 
 def copt_s(s):
@@ -601,6 +612,8 @@ def gen_case(ctx, rng, profile):
 # ------------------------------------------------------------------ correspondence
 def corr_block(ctx, prop, name, profiles_counts, extra_cases=()):
     """Generate cases, run the real decoder, let the kernel compare with the model."""
+    global INTERN
+    INTERN = {}
     rng = ctx.rng
     raw, lits, dist = [], [], {}
     for profile, n in profiles_counts:
@@ -629,7 +642,9 @@ def corr_block(ctx, prop, name, profiles_counts, extra_cases=()):
         if "msg" in kinds and ("none" in kinds or "err" in kinds):
             nontriv += 1
             keys.append(repr((cfg_json(cfg), [p.hex() for p, _ in hist])))
-    r = run_cases(prop, name, IMPORTS, "ccase", "chk_case", lits, shard=max(8, min(60, len(lits) // 16 + 1)))
+    r = run_cases(prop, name, IMPORTS, "ccase", "chk_case", lits, shard=max(8, min(60, len(lits) // 16 + 1)),
+                  prelude=intern_prelude())
+    INTERN = None
     r.update(name=name, distinct_nontrivial=distinct_count(keys),
              failing_cases=[case_json(raw[k][0], raw[k][1]) for k in r["failing"][:20]],
              samples=[{"config": cfg_json(raw[k][0]), "calls": len(raw[k][1]),
@@ -743,11 +758,26 @@ def shrink(hist, fails):
     return h
 
 
+def shrink_cfg(cfg, fails):
+    """Drop list entries of the configuration one at a time while the failure persists."""
+    cfg = {k: (list(v) if isinstance(v, list) else v) for k, v in cfg.items()}
+    for k in ("ex", "inc", "exm", "incm"):
+        i = len(cfg[k]) - 1
+        while i >= 0:
+            t = {**cfg, k: cfg[k][:i] + cfg[k][i + 1:]}
+            if fails(t):
+                cfg = t
+            i -= 1
+    return cfg
+
+
 def c10_witness(cfg, hist):
     r = c10_oracle(cfg, hist)
     if r is None:
         return None
     hist = shrink(hist[:r[0] + 1], lambda t: (c10_oracle(cfg, t) or (0, None))[1] == r[1])
+    shape = cfg_shape(cfg)
+    cfg = shrink_cfg(cfg, lambda c: cfg_shape(c) == shape and (c10_oracle(c, hist) or (0, None))[1] == r[1])
     r = c10_oracle(cfg, hist)
     return {"key": f"C10:{r[1]}:{cfg_shape(cfg)}:{'claim' if r[3] == CLAIM else 'data'}",
             "what": f"filter {cfg_json(cfg)['ex'] or cfg_json(cfg)['inc']} ({cfg_shape(cfg)}): {r[2]}",
@@ -757,12 +787,11 @@ def c10_witness(cfg, hist):
 def search(ctx):
     rng = ctx.rng
     out, seen = [], set()
-    cands = []
+    cands = CORPUS_C10()
     for h in ctx.hints:
         for c in h.get("cases", []):
             if "config" in c:
                 cands.append((cfg_unjson(c["config"]), hist_unjson(c["history"])))
-    cands += CORPUS_C10()
     for _ in range(ctx.n(300, 3000)):
         cands.append(gen_case(ctx, rng, rng.choice(["filter", "filter", "mixed", "claims"])))
     for cfg, hist in cands:
